@@ -20,6 +20,24 @@ NEEDS = {
  "C16-leading-blank-lost": ("C16", "an un-indented write (or include/run) whose output starts with one or more empty lines"),
  "C17-memoised-run": ("C17", "the same command text twice in one directory within one build: two sources using $TXTPP_FILE (deterministic with -j 1), one source whose command's result changes between two executions, or a command that fails the second time"),
  "C18-charcount-indent": ("C18", "a multi-line directive with a non-ASCII prefix followed by a line indented with at least char-count but fewer than byte-count spaces that is shorter than the byte length or has a multi-byte character at that offset"),
+ "r2-C01-after-fills-tag": ("C01", "a tag listening, then an `after` directive, then an output directive, then a use of the tag (or `after` as the last line of a source)"),
+ "r2-C02-collect-drops-directive": ("C02", "a file with two .txtpp dependencies where the second include/after line directly follows a run/temp/write/tag/empty directive, and that dependency is not complete when the final pass runs"),
+ "r2-C03-forget-finished": ("C03", "a finished file is named again by a later dependency list or directory scan (completion order / input selection)"),
+ "r2-C04-no-flush-error": ("C04", "plain build, output can be opened but the final emptying of the 8 KiB buffer fails (symlink to /dev/full with an output < 8 KiB, disk filling in the last partial buffer)"),
+ "r2-C05-selfedge-uncounted": ("C05", "a file that includes its own output and also another .txtpp dependency that is unfinished when its dependency report is handled"),
+ "r2-C06-missing-empty-output": ("C06", "the output of a source whose fresh output is empty is deleted, then verify"),
+ "r2-C07-clean-reparses-continuations": ("C07", "clean of a source with a multi-line run/write/empty directive whose continuation line reads `<prefix>TXTPP#temp FILE` with FILE an existing regular file"),
+ "r2-C08-no-truncate-when-empty": ("C08", "a source whose final pass writes zero bytes while non-empty leftover bytes sit at its output path"),
+ "r2-C09-compare-by-lines": ("C09", "--needed with an existing output that differs from the fresh one only in line terminators or the final newline"),
+ "r2-C10-include-creates-file": ("C10", "a source that includes a missing file (no .txtpp source, directory exists) in build / needed / verify"),
+ "r2-C11-dotted-stem-probe": ("C11", "a stem.txtpp.ext source whose stem contains a dot, reached by its output name (input or include/after argument)"),
+ "r2-C12-first-line-buffer": ("C12", "a source whose first line ends in CRLF and has at least 8191 bytes before it"),
+ "r2-C13-dependency-forced-newline": ("C13", "-n and a .txtpp file scheduled only because another file includes/afters it"),
+ "r2-C14-empty-output-not-captured": ("C14", "a listening tag followed by an include/run/write whose output is the empty string"),
+ "r2-C15-name-token-trimmed": ("C15", "TXTPP# followed by a directive name and a tab (or a tab before the name), then a space or end of line"),
+ "r2-C16-trim-start-matches": ("C16", "a continuation line in same-prefix form whose argument itself begins with the prefix text (`--x` under prefix `-`)"),
+ "r2-C17-relative-cwd-again": ("C17", "library use with base_dir different from the process cwd and a run directive in a sub-directory (same class as finding F3)"),
+ "r2-C18-display-truncation": ("C18", "a directive whose first argument is longer than 50 bytes with a multi-byte character across byte 50"),
 }
 for d in sorted(glob.glob("/verif/seeded/*/")):
     name = os.path.basename(d.rstrip("/"))
@@ -30,6 +48,8 @@ for d in sorted(glob.glob("/verif/seeded/*/")):
     m = re.search(r"demo exit with patch: (\d+)\s+without patch: (\d+)", txt)
     # every batch log of this seed, oldest first: the latest status of each property's check wins; the first one is kept too
     logs = sorted(glob.glob(f"/verif/work/seed*-{name}.log"), key=os.path.getmtime)
+    if name.startswith("r2-"):
+        prop_default = name[3:6]
     checks, first = {}, {}
     for lg in logs:
         for k, v in re.findall(r"check (C\d+) exit (\d+)", open(lg).read()):
@@ -37,7 +57,7 @@ for d in sorted(glob.glob("/verif/seeded/*/")):
             checks[k] = v
     if not checks:
         checks = dict(re.findall(r"check (C\d+) exit (\d+)", txt))
-    prop, needs = NEEDS.get(name, (name[:3], "see README.md"))
+    prop, needs = NEEDS.get(name, (name[3:6] if name.startswith("r2-") else name[:3], "see README.md"))
     meta = dict(
         name=name, breaks_property=prop, needs_to_manifest=needs,
         origin="written by an independent sub-agent that saw only the property text and a scratch worktree of the repository",
